@@ -64,6 +64,8 @@ fn op_kind(op: &Op) -> &'static str {
         Op::SetWhileBorrowed(..) => "set_value-while-borrowed",
         Op::GetWhileBorrowedMut(..) => "try_get_value-while-borrowed-mut",
         Op::BestWhileShared => "best_objective_value-while-shared",
+        Op::SetPopulation(..) => "set_population",
+        Op::SetFloat(..) => "set_float",
         Op::PresentWhileBorrowedMut(_, 1) => "require-while-borrowed-mut",
         Op::PresentWhileBorrowedMut(..) => "contains-while-borrowed-mut",
         Op::MultiWrite { .. } => "try_get_multiple_mut",
